@@ -362,7 +362,7 @@ type TypeOps struct {
 	// more elements of spare capacity behind them (nil rows stay nil); it
 	// returns the visible rows and, for inspection/filling, the full rows.
 	// MakeSSShared makes rows that are all prefixes of ONE backing array (returned too).
-	MakeSSShared func(lens []int, extra int) (SS, Sl)
+	MakeSSShared    func(lens []int, extra int) (SS, Sl)
 	MakeSSRowHidden func(lens []int, extra int) (SS, SS)
 	// MakeSlHidden makes a slice of n elements whose backing array has `extra`
 	// more elements behind it (spare capacity); it returns the visible slice
